@@ -126,6 +126,9 @@ func (in *Interp) intrinsic(caller *frame, name string, args []value, pos token.
 	case "SymbolicMapOrder":
 		in.symMapOrder = args[0].(*Term).IsTrue()
 		return nil
+	case "FullRangeKeys":
+		in.fullRange = args[0].(*Term).IsTrue()
+		return nil
 	case "IgnorePanics":
 		in.expectPanic = true
 		return nil
